@@ -101,6 +101,15 @@ impl RV {
         }
     }
 
+    /// identical as printed: REALs bit for bit (so -0.0 differs from 0.0; all NaNs count as one)
+    pub fn identical(&self, other: &RV) -> bool {
+        match (self, other) {
+            (RV::Real(a), RV::Real(b)) => a.to_bits() == b.to_bits() || (a.is_nan() && b.is_nan()),
+            (RV::Arr(ta, a), RV::Arr(tb, b)) => ta == tb && a.len() == b.len() && a.iter().zip(b).all(|(x, y)| x.identical(y)),
+            _ => self.same(other, 0.0),
+        }
+    }
+
     pub fn show(&self) -> String {
         match self {
             RV::Null => "NULL".into(),
